@@ -470,6 +470,9 @@ class Rewriter:
                 rewrites_async.apply_asyncblk(self, self.asyncblk, Unsupported)
             if getattr(self, "mutself", False):
                 rewrites_async.apply_mutself(self, Unsupported)
+        if getattr(self, "entryrw", False):  # opt-in (`:: entryrw=1`): R22 (`.entry(k).or_insert_with(|| b)` -> the match it abbreviates), see rewrites_entry.py
+            import rewrites_entry
+            rewrites_entry.apply_entryrw(self, Unsupported)
         return self.t
 
     # R14 ------------------------------------------------------------
@@ -741,6 +744,19 @@ def apply_fn_spec(text: str, spec: FnSpec, what: str, lost=None):
         ins.append((ls, g.rstrip() + "\n"))
     for anchor, g in spec.after:
         check_ghost_only(g, what + " after " + anchor)
+        if anchor == "@tail":
+            # R9t (additive): ghost text AFTER the tail expression has been evaluated - the single-line tail `E` becomes
+            # `let vx_tail = E;  <ghost>  vx_tail` (same value returned; lets a hint see the state `E` leaves behind)
+            inner = body.rstrip()[:-1].rstrip()
+            ls = inner.rfind("\n") + 1
+            last = inner[ls:].strip()
+            if last.endswith(";") or last.endswith("}") or not last or re.search(r"\bvx_tail\b", bm):
+                lost.append("lost anchor: @tail in %s" % what)
+                continue
+            ind = len(inner[ls:]) - len(inner[ls:].lstrip())
+            ins.append((len(inner), ";\n" + g.rstrip() + "\n" + inner[ls:ls + ind] + "vx_tail"))
+            ins.append((ls + ind, "let vx_tail = "))
+            continue
         try:
             _, i = statement_start_of(body, bm, anchor, what)
         except ScanError as e:
@@ -1248,6 +1264,7 @@ def emit_fn(u: Unit, fpath, impl_pat, name, spec: FnSpec, reach: bool, mutate):
     rw.matchrw = spec.opts.get("matchrw", "")
     rw.macros, rw.macro_src = spec.opts.get("macros", ""), src  # R21
     rw.asyncblk, rw.mutself = spec.opts.get("asyncblk"), spec.opts.get("mutself") == "1"  # R23 / R24
+    rw.entryrw = spec.opts.get("entryrw") == "1"  # R22
     try:
         t = rw.common()
         if spec.opts.get("mod") and spec.opts.get("rootpaths") == "1":
